@@ -148,3 +148,88 @@ def dev_product(axes, k, valid=None):
 def f32_ulp(x):
   x = np.abs(np.asarray(x, dtype=F32))
   return (np.nextafter(x, F32(np.inf), dtype=F32) - x).astype(np.float64)
+
+
+# ---------------------------------------------------------------------------------------------
+# Tensor alphabet T(shape, pattern) of DESIGN 2.3: a fixed finite list of value patterns; the seed
+# only selects one of 8 fixed permutations of the values over positions.
+PATTERNS = ["grid7", "ramp", "signs", "zero_channel", "zeros", "huge", "tiny", "one_hot_max"]
+_SIGN_VALUES = None
+
+
+def _sign_values():
+  global _SIGN_VALUES
+  if _SIGN_VALUES is None:
+    v = []
+    for t in (0.1, 0.33, 0.5, 1.0):
+      v += ulps(t, 1) + ulps(-t, 1)
+    v += [F32(0.0), F32(-0.0), F32(0.75), F32(-0.75), F32(0.2), F32(-0.2), F32(3.0), F32(-3.0)]
+    _SIGN_VALUES = np.array(v, dtype=F32)
+  return _SIGN_VALUES
+
+
+def tensor(shape, pattern, seed=0):
+  n = int(np.prod(shape))
+  i = np.arange(n)
+  if pattern == "grid7":
+    v = (((i * 5 + 3) % 15) - 7) / 7.0
+  elif pattern == "ramp":
+    v = (i - (n - 1) / 2.0) / max(1.0, n / 4.0) + 0.013
+  elif pattern == "signs":
+    sv = _sign_values()
+    v = sv[(i * 7 + 1) % len(sv)]
+  elif pattern in ("zero_channel", "zeros"):
+    v = (((i * 5 + 3) % 15) - 7) / 7.0
+  elif pattern == "huge":
+    v = ((((i * 5 + 3) % 15) - 7) / 7.0) * 1e6
+  elif pattern == "tiny":
+    v = ((((i * 5 + 3) % 15) - 7) / 7.0) * 1e-6
+  elif pattern == "one_hot_max":
+    v = ((((i * 3 + 1) % 11) - 5) / 50.0)
+  else:
+    raise ValueError(pattern)
+  v = np.asarray(v, dtype=F32)
+  perm = np.random.RandomState(1000 + (seed % 8)).permutation(n) if seed % 8 else np.arange(n)
+  v = v[perm].reshape(shape)
+  if pattern == "zeros":
+    v = np.zeros(shape, dtype=F32)
+  if pattern == "zero_channel":
+    v = v.copy()
+    v[..., 0] = 0.0
+    if len(shape) > 1 and shape[0] > 1:
+      v[0, ...] *= F32(0.5)
+  if pattern == "one_hot_max":
+    v = v.copy()
+    flat = v.reshape(-1, shape[-1]) if len(shape) > 1 else v.reshape(1, -1)
+    for c in range(flat.shape[1]):
+      flat[(c * 3) % flat.shape[0], c] = F32(1.5 + c)
+    v = flat.reshape(shape)
+  return np.ascontiguousarray(v, dtype=F32)
+
+
+SHAPES_A = {1: (4,), 2: (3, 4), 3: (2, 3, 4), 4: (2, 2, 3, 4)}
+SHAPES_B = {1: (8,), 2: (4, 8), 3: (2, 4, 8), 4: (2, 2, 4, 8)}
+
+
+def group_ids(shape, scale_axis, eps):
+  """Independent model of 'which elements share one scale' (C04/C05): one scale per index (or per
+  block of `eps` consecutive indices) along the scale axes, shared over every other axis.  scale_axis
+  None = last axis (channels_last).  Returns an int array of group ids of the given shape."""
+  r = len(shape)
+  if scale_axis is None:
+    axes = [r - 1]
+  elif isinstance(scale_axis, int):
+    axes = [scale_axis]
+  else:
+    axes = list(scale_axis)
+  if eps is None:
+    e = [1] * len(axes)
+  elif isinstance(eps, int):
+    e = [eps] * len(axes)
+  else:
+    e = list(eps)
+  idx = np.indices(shape)
+  gid = np.zeros(shape, dtype=np.int64)
+  for a, k in zip(axes, e):
+    gid = gid * (shape[a] // k + 1) + idx[a] // k
+  return gid
